@@ -527,6 +527,13 @@ RULES = {
     "R10": Rule("R10", "for x in S { BODY } (S: &mut [T] variable) -> { let mut i__ = 0; while i__ < S.len() { let x = &mut S[i__]; i__ += 1; BODY } }",
                 "for $x in $s { $$body }",
                 "{ let mut i__ = 0 ; while i__ < $s . len ( ) { let $x = & mut $s [ i__ ] ; i__ += 1 ; $$body } }"),
+    # assert!/panic! family -> calls of the dual-world panic model (contracts/prelude/panic.rs); the format
+    # arguments are dropped (they have no effect on control flow; evaluating them cannot panic for the Display impls used)
+    "R11": Rule("R11", "assert!(C, MSG..) -> __assert(C)", "assert ! ( $$c , $$m )", "__assert ( $$c )"),
+    "R11a": Rule("R11a", "assert!(C) -> __assert(C)", "assert ! ( $$c )", "__assert ( $$c )"),
+    "R11b": Rule("R11b", "panic!(..) -> __panic()", "panic ! ( $$m )", "__panic ( )"),
+    "R11c": Rule("R11c", "assert_eq!(A, B, ..) -> __assert(A == B)", "assert_eq ! ( $$a , $$b )", "__assert ( $$a == $$b )"),
+    "R11d": Rule("R11d", "unreachable!() -> __unreachable()", "unreachable ! ( $$m )", "__unreachable ( )"),
     "R4b": Rule("R4b", "for (a, &b) in I { S } -> for (a, b_r__) in I { let b = *b_r__; S }",
                 "for ( $a , & $b ) in $$i { $$s }",
                 "for ( $a , b_r__ ) in $$i { let $b = * b_r__ ; $$s }"),
